@@ -341,7 +341,10 @@ def check_case(case):
     xe = x.reshape(-1, N).astype(np.complex128 if dt.kind == "c" else np.float64)
     want_i = (xe @ M.T).reshape(batch + pts)
     sc_i = (np.abs(xe) @ M.T).reshape(batch + pts)
-    ok_i, got_i = _call(r, "interpolate", lambda: sp.interpolate(x, coord, **kw))
+    if (npts + N) % 3 == 0:
+        ok_i, got_i = _call(r, "interpolate", lambda: sp.interpolate(x, coord, kernel, W, P))     # (input, coord, kernel, width, param)
+    else:
+        ok_i, got_i = _call(r, "interpolate", lambda: sp.interpolate(x, coord, **kw))
     if ok_i:
         _close(r, "interpolate:values:" + kernel, got_i, want_i, sc_i, tol, extra)
 
@@ -350,7 +353,10 @@ def check_case(case):
     want_g = (ye @ M).reshape(batch + grid)
     sc_g = (np.abs(ye) @ M).reshape(batch + grid)
     shp = tuple(batch + grid) if case["as_tuple"] else list(batch + grid)
-    ok_g, got_g = _call(r, "gridding", lambda: sp.gridding(y, coord, shp, **kw))
+    if (npts + N) % 3 == 0:
+        ok_g, got_g = _call(r, "gridding", lambda: sp.gridding(y, coord, shp, kernel, W, P))      # (input, coord, shape, kernel, width, param)
+    else:
+        ok_g, got_g = _call(r, "gridding", lambda: sp.gridding(y, coord, shp, **kw))
     if ok_g:
         _close(r, "gridding:values:" + kernel, got_g, want_g, sc_g, tol, extra)
 
